@@ -692,7 +692,69 @@ def oracle_c05(cases, seed, thorough):
         if a[i] != b[i]:
             fails.append({"source": s2, "what": "a member instruction that applies to no requested conversion changes the expansion", "detail": {"without": s}})
     f2, n2 = oracle_c05_shadowed(seed, thorough)
-    return fails + f2, n + n2
+    f3, n3 = oracle_c05_order(seed, thorough)
+    return fails + f2 + f3, n + n2 + n3
+
+
+SAME_NAME_CATEGORIES = {"type_hint", "child", "literal", "pattern", "where_clause", "child_parents", "ghost", "ghost_owned", "ghost_ref",
+                        "ghosts", "ghosts_owned", "ghosts_ref", "parent", "as_type"} | set(gen.ALL24)
+
+
+def dedication_of(a, cparts):
+    """counterpart an instruction is dedicated to (`Type| ...`), or None"""
+    if a.args is None:
+        return None
+    left, bar, _ = a.args.partition("|")
+    if not bar:
+        # `#[parent(Type)]` / `#[ghost(Type)]` bare dedications are not used by this oracle
+        return None
+    n = norm_ty(left.replace("::<", "<"))
+    return n if n in cparts else None
+
+
+def oracle_c05_order(seed, thorough, profiles=("multi-counterpart", "enum-members", "member-instrs", "tree", "generics")):
+    """most-specific pick is independent of written order: swapping a default instruction with a dedicated instruction
+    of the same name on the same item / member / variant must leave the expansion unchanged"""
+    fails = []
+    r = random.Random(seed + 56)
+    items = []
+    for k, prof in enumerate(profiles):
+        items += gen.gen_items(prof, seed * 1000 + 370 + k, 300 if not thorough else 3000)
+    pairs = []
+    for it in items:
+        cps = {norm_ty(c.replace("::<", "<")) for c in it.meta.get("cparts", [])}
+        hosts = [it] + list(it.fields) + list(it.variants) + [f for v in it.variants for f in v.fields]
+        cands = []
+        for hi, h in enumerate(hosts):
+            for x in range(len(h.attrs) - 1):
+                # only neighbours are swapped: the order of either one relative to every other instruction stays as written
+                for y in (x + 1,):
+                    a, b = h.attrs[x], h.attrs[y]
+                    if a.name != b.name or a.name not in SAME_NAME_CATEGORIES:
+                        continue
+                    if (a.tag and a.tag[0] == "trait") or (b.tag and b.tag[0] == "trait"):
+                        continue  # two trait instructions are two requests, not two candidates
+                    da, db = dedication_of(a, cps), dedication_of(b, cps)
+                    if (da is None) != (db is None):
+                        cands.append((hi, x, y))
+        if not cands:
+            continue
+        hi, x, y = r.choice(cands)
+        it2 = copy.deepcopy(it)
+        hosts2 = [it2] + list(it2.fields) + list(it2.variants) + [f for v in it2.variants for f in v.fields]
+        h2 = hosts2[hi]
+        h2.attrs[x], h2.attrs[y] = h2.attrs[y], h2.attrs[x]
+        pairs.append((it.meta["id"], gen.render(it), gen.render(it2)))
+    a = expand("s1", [(i, s) for i, s, _ in pairs])
+    b = expand("s1", [(i, s2) for i, _, s2 in pairs])
+    n = 0
+    for i, s, s2 in pairs:
+        if a[i][0] != "OK" and b[i][0] != "OK":
+            continue
+        n += 1
+        if a[i] != b[i]:
+            fails.append({"source": s2, "what": "swapping a default and a dedicated instruction of the same name changes the expansion", "detail": {"original_order": s, "a": str(a[i])[:300], "b": str(b[i])[:300]}})
+    return fails, n
 
 
 def oracle_c05_shadowed(seed, thorough):
@@ -1044,7 +1106,7 @@ def oracle_c14_members(cases, seed, thorough):
     return fails, n
 
 
-RT_FAMILY = {"C01": "flat", "C07": "flat7", "C08": "flat", "C02": "enum", "C03": "tree", "C09": "prim", "C17": "hints"}
+RT_FAMILY = {"C01": "flat", "C07": "flat7", "C08": "flat", "C02": "enum", "C03": "tree", "C09": "prim", "C17": "hints", "C10": "subst"}
 
 
 def oracle_rt(prop, seed, thorough):
@@ -1065,6 +1127,11 @@ def run_oracle(prop, cases, results, seed, thorough, disagreements):
         if prop in ("C01", "C02", "C03", "C08", "C09"):
             out["name"] = "runtime tie: compile-and-run of designed programs vs documented meaning"
             out["evaluated"] = out["runtime_tie"]["conversions_compared"]
+            if prop == "C02":
+                out["name"] += " + metamorphic: swapping a default with a dedicated variant / payload instruction of the same name leaves the real expansion unchanged"
+                fo, no = oracle_c05_order(seed + 2, thorough, profiles=("enum-members", "enum", "multi-counterpart"))
+                out["failures"] += fo
+                out["evaluated"] += no
         elif prop == "C16":
             out["name"] = "catch_unwind on the real derive for every case"
             out["failures"] = oracle_c16(cases, results)
@@ -1087,10 +1154,12 @@ def run_oracle(prop, cases, results, seed, thorough, disagreements):
             out["name"] = "metamorphic: projection onto one counterpart on the real derive"
             out["failures"], out["evaluated"] = oracle_c06(cases, results, seed, thorough)
         elif prop == "C10":
-            out["name"] = "no placeholder left + metamorphic marker-token pass-through on the real derive"
-            out["failures"], out["evaluated"] = oracle_c10(cases, seed, thorough)
+            out["name"] = "no placeholder left + metamorphic marker-token pass-through on the real derive + runtime tie (designed programs whose expressions use ~ / @)"
+            f10, n10 = oracle_c10(cases, seed, thorough)
+            out["failures"] += f10
+            out["evaluated"] = n10 + out["runtime_tie"]["conversions_compared"]
         elif prop == "C05":
-            out["name"] = "metamorphic: adding an instruction for a kind nobody requested leaves the real expansion unchanged"
+            out["name"] = "metamorphic on the real derive: an instruction for a kind nobody requested, the infallible twin of a fallible instruction, and swapping a default with a dedicated instruction of the same name all leave the expansion unchanged"
             out["failures"], out["evaluated"] = oracle_c05(cases, seed, thorough)
         elif prop == "C15":
             out["name"] = "fault injection (15 documented misuse classes, single and paired, random position and spelling) on the real derive"
